@@ -87,6 +87,9 @@ def gen_cases(rng, n):
         cases.append("BX d %s E666f6f3a317c63,l,E6261723a327c63,F,L,F" % q)
     for k in (0, 1, 2):
         cases.append("UA %d E666f6f3a317c63,E6261723a327c63" % k)
+    # exact fills of the smallest buffers (a 1-byte buffer and the empty metric: the newline alone is as large as the
+    # BufWriter's capacity and goes straight to the socket - C19's "or exactly fills the buffer")
+    cases += ["BU 1 q0 E-", "BU 1 q0 E-,E-,F", "BX 1 q0 E-,E61,F,E-", "BU 2 q0 E61,E-,F", "BX 2 q0 E-,E-,E61"]
     # buffered Unix sink: failed explicit / implicit flushes while the listener is away, then flushes after it is back
     a, b, c = "E" + hx(b"foo:1|c"), "E" + hx(b"barbaz:22|c"), "E" + hx(b"q:3|c")
     for cap in ("d", "8", "16", "24"):
@@ -522,7 +525,9 @@ def judge(case, obs):
                 if op[0] == "E" and r.startswith("k"):
                     need = len(unhx(op[1:])) + 1
                     if need <= cap and pending + need <= cap:
-                        if seen[j] != before:
+                        # C19 allows a write during an emit that exactly fills the buffer (a 1-byte buffer and an
+                        # empty metric: BufWriter passes the newline straight through), so only a strict fit is judged
+                        if pending + need < cap and seen[j] != before:
                             for pid in ("C19", "C13"):
                                 bad.append((pid, "emit %d (%d bytes with its newline) fitted the %d-byte buffer holding %d bytes, yet %d "
                                             "datagram(s) were written during it" % (j, need, cap, pending, seen[j] - before)))
